@@ -54,6 +54,9 @@ def _thresholds(sc, conds):
             k = max(1, min(n - 1, int(round(c["at"] * (n - 1)))))
             lo, hi = (s[k - 1], s[k]) if k > 0 else (s[k], s[k])
             v = lo + c["frac"] * (hi - lo)
+            if c["place"] == "equal":
+                v = s[k]              # the threshold is bit-equal to a recorded value: both inequalities are strict
+
         out.append({"q": c["q"], "ineq": c["ineq"], "value": float(v), "phase": names[pidx], "pidx": pidx, "mode": c["mode"]})
     return out, res
 
@@ -221,7 +224,7 @@ def check_ttp(case):
 @st.composite
 def _cond(draw):
     return {"q": draw(st.sampled_from(QUANT)), "ineq": draw(st.sampled_from([">", "<"])), "phase": draw(st.integers(0, 2)),
-            "place": draw(st.sampled_from(["at", "at", "at", "never"])), "at": draw(st.floats(0.02, 1.0)), "frac": draw(st.floats(0.05, 0.95)),
+            "place": draw(st.sampled_from(["at", "at", "at", "at", "never", "never", "equal"])), "at": draw(st.floats(0.02, 1.0)), "frac": draw(st.floats(0.05, 0.95)),
             "mode": draw(st.sampled_from(["or", "or", "and"]))}
 
 
@@ -249,7 +252,7 @@ def _ttp_case(draw):
 def clauses():
     return [
         Clause("stop", _stop_case, check_stop, quick=150, thorough=3000, shrink=False,
-               rule="generator: toy binary scenario (1-2 phases) x 1-4 conditions over {volume fraction, mean radius, driving force, nucleation rate, density, composition} x {>,<} x phase x 'or'/'and', thresholds placed between two recorded values of a dry run (early/late) or out of range (never); "
+               rule="generator: toy binary scenario (1-2 phases) x 1-4 conditions over {volume fraction, mean radius, driving force, nucleation rate, density, composition} x {>,<} x phase x 'or'/'and', thresholds placed between two recorded values of a dry run (early/late), exactly on a recorded value, or out of range (never); "
                     "oracle recomputed from the recorded history: stop step, end time, latching, crossing time inside the step and linearly interpolated; non-trivial: conditions first met strictly inside the run (step > 1)"),
         Clause("ttp", _ttp_case, check_ttp, quick=24, thorough=400, shrink=False,
                rule="generator: isothermal toy binary scenario x 1-3 'and' conditions x 2-3 temperatures; TTP calculator entries vs independent runs with the same conditions (-1 when never met); non-trivial: some time reported and (a -1 entry or several conditions)"),
